@@ -64,7 +64,7 @@ VLQAll(ds, i) ==
 (*   index, source line, source column, name index (each relative to the   *)
 (*   previous occurrence of that field anywhere before).                   *)
 (* Result: sequence of absolute segments in order of appearance, or        *)
-(* <<"malformed">>.                                                        *)
+(* <<[malformed |-> TRUE]>>.                                                        *)
 
 CharsOf(s) == [i \in 1..Len(s) |-> SubSeq(s, i, i)]
 
@@ -91,15 +91,15 @@ DecodeFrom(cs, i, st, cur, out) ==
                          out |-> Append(out, Seg(st2.gl, st2.gc, st2.src, st2.sl, st2.sc,
                                                  Len(f) = 5, IF Len(f) = 5 THEN st2.ni ELSE 0))]
   IN
-  IF i > Len(cs) THEN (IF Flush.ok THEN Flush.out ELSE <<"malformed">>)
+  IF i > Len(cs) THEN (IF Flush.ok THEN Flush.out ELSE <<[malformed |-> TRUE]>>)
   ELSE IF cs[i] = ";" THEN
-         IF ~Flush.ok THEN <<"malformed">>
+         IF ~Flush.ok THEN <<[malformed |-> TRUE]>>
          ELSE DecodeFrom(cs, i + 1, [Flush.st EXCEPT !.gl = @ + 1, !.gc = 0], <<>>, Flush.out)
   ELSE IF cs[i] = "," THEN
-         IF ~Flush.ok \/ cur = <<>> THEN <<"malformed">>
+         IF ~Flush.ok \/ cur = <<>> THEN <<[malformed |-> TRUE]>>
          ELSE DecodeFrom(cs, i + 1, Flush.st, <<>>, Flush.out)
   ELSE IF cs[i] \in B64Set THEN DecodeFrom(cs, i + 1, st, Append(cur, B64Digit[cs[i]]), out)
-  ELSE <<"malformed">>
+  ELSE <<[malformed |-> TRUE]>>
 
 Decode(str) ==
   DecodeFrom(CharsOf(str), 1, [gl |-> 0, gc |-> 0, src |-> 0, sl |-> 0, sc |-> 0, ni |-> 0],
